@@ -33,6 +33,8 @@ DROPPED = ['`x / kWriter`, `x % kWriter` are kept as written (kWriter == 1 << 32
            'the readers container is the abstract count g.rl / g.local (ReadersFIFO only selects List vs Stack: resume order of readers, not their number)']
 ASSUMPTIONS = ['SC atomics (orders are C04 and not claimed for this class)', 'fewer than 2^30 simultaneous readers / writers (no counter wrap of the packed 32+32 word)',
                'liveness itself (holders release, executors accept work) is the property\'s own premise: only the safety shadow is proved']
+# real-code drivers that exercise what this unit proves (thorough tier: sanity run on the tree under check)
+DRIVERS = [('shared_mutex.cpp', [2000], 'coro')]
 
 COMMON = r'''
 #include "vf.h"
